@@ -81,7 +81,30 @@ impl Add<SystemTime> for IggyTimestamp {
 
 impl Default for IggyTimestamp {
     fn default() -> Self {
+        #[cfg(feature = "verif")]
+        {
+            let offset = verif_clock::OFFSET_MICROS.load(std::sync::atomic::Ordering::SeqCst);
+            if offset != 0 {
+                return Self(SystemTime::now() + Duration::from_micros(offset));
+            }
+        }
         Self(SystemTime::now())
+    }
+}
+
+/// Verification hook (feature `verif`, off by default): a virtual clock offset added to `now()`.
+#[cfg(feature = "verif")]
+pub mod verif_clock {
+    use std::sync::atomic::{AtomicU64, Ordering};
+
+    pub static OFFSET_MICROS: AtomicU64 = AtomicU64::new(0);
+
+    pub fn advance_micros(micros: u64) -> u64 {
+        OFFSET_MICROS.fetch_add(micros, Ordering::SeqCst) + micros
+    }
+
+    pub fn offset_micros() -> u64 {
+        OFFSET_MICROS.load(Ordering::SeqCst)
     }
 }
 
